@@ -13,6 +13,8 @@ from .logic import And, Or, Not, If, Eq, Div, Mod
 from . import models
 from .models import DT, DateV, TD, RD, RRuleResult
 from .regexmodel import WS_CHARS, case_variants
+from . import tstr
+from .tstr import TStr, RegexVal, TMatch
 
 T_NONE = ExtType("NoneType")
 T_INT = ExtType("int")
@@ -56,6 +58,12 @@ class Frame:
                 return f.vars[name], True
             f = f.parent
         return None, False
+
+
+class HashKey:
+    def __init__(self, kind, items):
+        self.kind = kind
+        self.items = items
 
 
 class MatchVal:
@@ -270,6 +278,10 @@ class Interp:
             return True
         if isinstance(v, OpaqueStr):
             raise Unsupported("truthiness of untracked string")
+        if isinstance(v, TStr):
+            if any(isinstance(a, (str, tstr.Digits)) for a in v.atoms):
+                return True
+            raise Unsupported("truthiness of structured string")
         return True
 
     def typeof(self, v):
@@ -281,7 +293,7 @@ class Interp:
             return T_INT
         if isinstance(v, float):
             return T_FLOAT
-        if isinstance(v, (str, FinStr, SStr, OpaqueStr, GroupVal)):
+        if isinstance(v, (str, FinStr, SStr, OpaqueStr, GroupVal, TStr)):
             return T_STR
         if isinstance(v, tuple):
             return T_TUPLE
@@ -349,6 +361,13 @@ class Interp:
             return Or(both_none, And(Not(an), Not(bn), self.eq(av, bv)))
         if a is None or b is None:
             return a is None and b is None
+        if isinstance(a, TStr) or isinstance(b, TStr):
+            t, o = (a, b) if isinstance(a, TStr) else (b, a)
+            if isinstance(o, str):
+                return tstr.eq_const(self, t, o)
+            if isinstance(o, (TStr, FinStr)):
+                raise Unsupported("== between structured strings")
+            return False
         if isinstance(a, FinStr) or isinstance(b, FinStr):
             if isinstance(a, FinStr) and isinstance(b, FinStr):
                 pairs = [And(a.idx == i, b.idx == j) for i, x in enumerate(a.options)
@@ -685,7 +704,15 @@ class Interp:
                 return Builtin("match.group", lambda it, a, k: it.match_group(v, a))
             if name in ("captures", "span", "start", "end"):
                 raise Unsupported("match.%s" % name)
-        if isinstance(v, (str, FinStr, SStr, GroupVal, OpaqueStr)):
+        if isinstance(v, RegexVal):
+            if name == "match":
+                return Builtin("regex.match", lambda it, a, k: it.regex_match(v, a))
+            raise Unsupported("regex.%s" % name)
+        if isinstance(v, TMatch):
+            if name == "group":
+                return Builtin("match.group", lambda it, a, k: v.groups[a[0]] if a[0] in v.groups else it.raise_("IndexError", "no such group"))
+            raise Unsupported("match.%s" % name)
+        if isinstance(v, (str, FinStr, SStr, GroupVal, OpaqueStr, TStr)):
             return Builtin("str." + name, lambda it, a, k, _v=v, _n=name: it.str_method(_v, _n, a, k))
         if isinstance(v, FuncVal) and name == "__name__":
             return v.name
@@ -696,6 +723,46 @@ class Interp:
         if has_default:
             return default
         raise Unsupported("attribute %s of %r" % (name, type(v).__name__))
+
+    def hash_(self, v):
+        """hash(v) as a structure: Python hashes tuples / scalars by value (A-py); objects via __hash__"""
+        if isinstance(v, tuple):
+            return HashKey("tuple", [self.hash_(x) for x in v])
+        if isinstance(v, SOpt) and isinstance(v.val, Obj):
+            if self.branch(v.is_none):
+                return HashKey("val", [None])
+            v = v.val
+        if isinstance(v, Obj):
+            m, _ = v.cls.lookup("__hash__")
+            if m is None:
+                return HashKey("id", [v])
+            r = self.call(BoundMethod(v, m), [], {})
+            if not isinstance(r, HashKey):
+                return HashKey("val", [r])
+            return r
+        if isinstance(v, (list, dict, set)):
+            raise PyRaise("TypeError", "unhashable type")
+        return HashKey("val", [v])
+
+    def hash_equal(self, a, b):
+        if a.kind != b.kind or len(a.items) != len(b.items):
+            return False
+        if a.kind == "tuple":
+            return And(*[self.hash_equal(x, y) for x, y in zip(a.items, b.items)])
+        if a.kind == "id":
+            return a.items[0] is b.items[0]
+        return self.eq(a.items[0], b.items[0])
+
+    def raise_(self, cls, msg):
+        raise PyRaise(cls, msg)
+
+    def regex_match(self, rx, args):
+        t = args[0]
+        if isinstance(t, SOpt):
+            t = self.unwrap(t, "TypeError", "expected string")
+        if isinstance(t, (str, TStr, FinStr)):
+            return tstr.tmatch(self, rx, t)
+        raise Unsupported("regex match on %r" % type(t).__name__)
 
     def bind(self, obj, m):
         if isinstance(m, FuncVal):
@@ -746,6 +813,14 @@ class Interp:
                 except (TypeError, ValueError, IndexError, KeyError) as e:
                     raise PyRaise(type(e).__name__, str(e))
             raise Unsupported("str.%s with symbolic arguments" % name)
+        if isinstance(s, TStr) or (isinstance(s, FinStr) and name == "split"):
+            if name == "split" and not kwargs and len(args) <= 1 and all(isinstance(a, str) for a in args):
+                return tstr.split(s, args[0] if args else None)
+            if name == "startswith" and len(args) == 1 and isinstance(args[0], str):
+                return tstr.startswith(s, args[0])
+            if name == "format":
+                return OpaqueStr("format")
+            raise Unsupported("str.%s on a structured string" % name)
         if isinstance(s, FinStr):
             if name in ("lower", "upper", "strip", "title", "lstrip", "rstrip") and not args:
                 return s.map(lambda x: getattr(x, name)())
@@ -822,12 +897,9 @@ class Interp:
                     raise PyRaise("KeyError", key)
                 v = kwargs[key]
             s = self.format_value(v, spec or "", conv)
-            if isinstance(s, str):
-                out.append(s)
-            else:
-                concrete = False
-        if concrete:
-            return "".join(out)
+            out.append(s)
+        if all(isinstance(x, (str, TStr, FinStr)) for x in out):
+            return tstr.concat(out)
         return OpaqueStr("format:" + fmt)
 
     def format_value(self, v, spec, conv):
@@ -854,6 +926,8 @@ class Interp:
             kind = spec[-1] if spec else ""
             if kind == "d" and not z3.is_int(v):
                 raise PyRaise("ValueError", "Unknown format code 'd' for object of type 'float'")
+            if kind == "d" and z3.is_int(v) and (spec == "d" or (spec[0] == "0" and spec[1:-1].isdigit())):
+                return self.digits(v, int(spec[1:-1]) if len(spec) > 1 else None)
             if kind in "dfeEgG%xXobn" or kind.isdigit():
                 return OpaqueStr("num")
             raise PyRaise("ValueError", "Unknown format code")
@@ -864,6 +938,12 @@ class Interp:
         if isinstance(v, (Obj, tuple, list, dict)):
             raise PyRaise("TypeError", "unsupported format string passed to %s.__format__" % self.typeof(v))
         raise Unsupported("format of %r with spec %r" % (type(v).__name__, spec))
+
+    def digits(self, v, width):
+        try:
+            return tstr.digits_field(self, v, width)
+        except Unsupported:
+            return OpaqueStr("negative number")
 
     def to_str(self, v):
         """str(v)"""
@@ -878,7 +958,11 @@ class Interp:
         if isinstance(v, GroupVal):
             return self.group_text(v)
         if is_z3(v):
+            if z3.is_int(v):
+                return self.digits(v, None)
             return OpaqueStr("str(sym)")
+        if isinstance(v, TStr):
+            return v
         if isinstance(v, Obj):
             m, _ = v.cls.lookup("__str__")
             if m is None:
@@ -886,7 +970,7 @@ class Interp:
             if m is None:
                 return OpaqueStr("object")
             r = self.call(BoundMethod(v, m), [], {})
-            if not isinstance(r, (str, FinStr, SStr, OpaqueStr)):
+            if not isinstance(r, (str, FinStr, SStr, OpaqueStr, TStr)):
                 raise PyRaise("TypeError", "__str__ returned non-string")
             return r
         if isinstance(v, (tuple, list, dict, set)):
@@ -1004,6 +1088,10 @@ class Interp:
                         return v[i]
                 raise Abort()
             raise PyRaise("TypeError", "indices must be integers")
+        if isinstance(v, TStr):
+            if isinstance(idx, slice):
+                return tstr.slice_(v, idx)
+            raise Unsupported("index into structured string")
         if isinstance(v, RRuleResult):
             if idx == 0:
                 return v.first
